@@ -275,7 +275,7 @@ func TestVerifC16(t *testing.T) {
 	out := vhOpen(t)
 	defer out.Close()
 	rng := vhRand()
-	runs := 10
+	runs := 8
 	if vhThorough() {
 		runs = 60
 	}
@@ -312,8 +312,8 @@ func TestVerifC16(t *testing.T) {
 		}
 		out.Emit(vh16Obs{Kind: "answered", Run: r, Cfg: cfg, Issued: int(issued), Answered: int(answered), Shutdown: shutdown})
 		const chunk = 3000
-		if len(events) > chunk*4 {
-			events = events[:chunk*4] // the monitor checks a prefix of very long logs (a prefix of a log is a log)
+		if len(events) > 4000 {
+			events = events[:4000] // the monitor checks a prefix of very long logs (a prefix of a log is a log)
 		}
 		out.Emit(vh16Obs{Kind: "log", Run: r, Cfg: cfg, Events: events})
 		// isolation: each disjoint client alone, on a fresh server with the same initial state
